@@ -12,6 +12,9 @@
 #define BIG 240
 #endif
 static uint8_t big[BIG];
+#ifndef VF_CBMC
+static uint8_t wr[BIG];
+#endif
 assemblyline_t g_al;
 
 static int one_call(assemblyline_t a, int p, int mode, unsigned long c, int *cnt) {
@@ -74,9 +77,15 @@ void harness(void) {
 #ifdef VF_CBMC
       CHECK(code == os_code_base(), "asm_get_code returns the current address of the managed buffer");
       CHECK((unsigned)A->buffer_len == os_anon_len, "the recorded buffer length is the size of the mapping");
-      (void)end;
+      /* contents: the byte at the model's nondeterministic probe offset (it stands for every offset), if the calls so far wrote it */
+      if (os_probe_ref_set && os_probe_q < (unsigned)end) {
+        unsigned char got = 0;
+        int okp = os_probe_read(code, &got);
+        CHECK(okp && got == os_probe_ref, "the managed buffer holds the same bytes as the reference: growth preserves what was written earlier");
+      }
 #else
-      for (int q = (int)off; q < end; q++) CHECK(code[q] == big[q], "the managed buffer holds the same bytes as the reference");
+      for (int q = (int)off; q < end; q++) wr[q] = 1;
+      for (int q = 0; q < BIG; q++) if (wr[q]) CHECK(code[q] == big[q], "the managed buffer holds the same bytes as the reference: growth preserves what was written earlier");
 #endif
     }
   }
